@@ -5,6 +5,8 @@ import (
 	"go/ast"
 	"go/token"
 	"go/types"
+	"os"
+	"sort"
 	"strings"
 
 	"golang.org/x/tools/go/packages"
@@ -15,48 +17,65 @@ import (
 // reviewedIndex: partial operations whose safety rests on an invariant that the guard idioms below cannot
 // express; one row per (function, expression), each with its reason. Anything not matched by an idiom or a row fails.
 var reviewedIndex = map[string]string{
-	"parser.(*parser).split|p.tokens[start:]":                                  "start is p.pos at entry; the cursor only exceeds len(tokens) after next() reported the end, and split is only called after a successful next() of the caller (C12/cursor: the cursor never moves before a saved position)",
-	"parser.(*parser).split|p.tokens[start:p.pos]":                             "start <= p.pos: the cursor only moves forward between the save and the slice (next/prev pairs, C12/cursor)",
-	"parser.(*parser).splitSemi|p.tokens[start:]":                              "as split",
-	"parser.(*parser).splitSemi|p.tokens[start:p.pos]":                         "as split",
-	"parser.(*scanner).quotedIdent|s.s[start + len(\"`\"):s.pos - len(\"`\")]": "both backticks were read by this function before the slice is taken: start+1 <= s.pos-1",
-	"parser.(*scanner).numberOrDot|s.s[hexDigitStart:s.pos]":                   "hexDigitStart is a saved scanner position and the scanner only moved forward since (C09/backup)",
-	"parser.(*scanner).string|s.s[valueStart:s.last]":                          "valueStart is the position after the opening quote; s.last is the start of the rune just read, which lies at or after valueStart",
-	"parser.(*scanner).next|s.s[s.pos:]":                                       "guarded by `s.pos >= len(s.s)` returning early",
-	"parser.linecol|source[:pos]":                                              "pos is span.Start of a parseError, whose spans are token spans or end of input (C10/errors)",
-	"pql.linecol|source[:pos]":                                                 "pos is span.Start of a compileError, used only after span.IsValid() (C10/errors)",
-	"parser.spanString|s[span.Start:span.End]":                                 "guarded by span.IsValid(); spans recorded by the parser lie inside the source (C10/recorded, C09/spans)",
-	"pql.(*subquery).write|ctx.source[span.Start:span.End]":                    "span is Span() of a parsed expression (C10/slices): token-derived, inside the source",
-	"pql.(*subquery).write|id.Parts[0]":                                        "every construction site of QualifiedIdent has at least one part (checked: C12/nonempty)",
-	"pql.(*CompileOptions).Compile|subqueries[:len(subqueries) - 1]":           "splitQueries returns a non-empty slice on success (its final `len(dst) == dstStart` guard appends one; checked: C12/post)",
-	"pql.(*CompileOptions).Compile|subqueries[len(subqueries) - 1]":            "as above",
-	"pql.splitQueries|dst[len(dst) - 1]":                                       "dst is the result of the recursive splitQueries call, which appends at least one subquery (C12/post)",
-	"pql.splitQueries|dst[leftSubquery]":                                       "guarded by leftSubquery >= dstStart >= 0, and leftSubquery = len(dst)-1 of a dst that only grew",
-	"pql.chainSubquery|dst[len(dst) - 1]":                                      "guarded by len(dst) > dstStart and dstStart = len(dst) of the caller's entry >= 0",
-	"parser.SplitStatements|source[start:tok.Span.Start]":                      "start is 0 or the End of an earlier semicolon token, tok is a later token of Scan(source) (C15/provenance); token spans lie inside the source in order (C09/spans)",
-	"parser.SplitStatements|source[start:]":                                    "start is 0 or the End of a token of Scan(source) (C15/provenance, C09/spans)",
-	"parser.firstParse|productions[:len(productions) - 1]":                     "variadic: every call site passes at least one production (checked: C12/variadic)",
-	"parser.firstParse|productions[len(productions) - 1]":                      "as above",
+	"parser.(*parser).split|$*parser.tokens[$int:]":                          "start is p.pos at entry; the cursor only exceeds len(tokens) after next() reported the end, and split is only called after a successful next() of the caller (C12/cursor: the cursor never moves before a saved position)",
+	"parser.(*parser).split|$*parser.tokens[$int:$*parser.pos]":              "start <= p.pos: the cursor only moves forward between the save and the slice (next/prev pairs, C12/cursor)",
+	"parser.(*parser).splitSemi|$*parser.tokens[$int:]":                      "as split",
+	"parser.(*parser).splitSemi|$*parser.tokens[$int:$*parser.pos]":          "as split",
+	"parser.(*scanner).quotedIdent|$*scanner.s[$int + 1:$*scanner.pos - 1]":  "both backticks were read by this function before the slice is taken: start+1 <= s.pos-1",
+	"parser.(*scanner).numberOrDot|$*scanner.s[$int:$*scanner.pos]":          "hexDigitStart is a saved scanner position and the scanner only moved forward since (C09/backup)",
+	"parser.(*scanner).string|$*scanner.s[$int:$*scanner.last]":              "valueStart is the position after the opening quote; s.last is the start of the rune just read, which lies at or after valueStart",
+	"parser.(*scanner).next|$*scanner.s[$*scanner.pos:]":                     "guarded by `s.pos >= len(s.s)` returning early",
+	"parser.linecol|$string[:$int]":                                          "pos is span.Start of a parseError, whose spans are token spans or end of input (C10/errors)",
+	"pql.linecol|$string[:$int]":                                             "pos is span.Start of a compileError, used only after span.IsValid() (C10/errors)",
+	"parser.spanString|$string[$Span.Start:$Span.End]":                       "guarded by span.IsValid(); spans recorded by the parser lie inside the source (C10/recorded, C09/spans)",
+	"pql.(*subquery).write|$*exprContext.source[$Span.Start:$Span.End]":      "span is Span() of a parsed expression (C10/slices): token-derived, inside the source",
+	"pql.(*subquery).write|$*QualifiedIdent.Parts[0]":                        "every construction site of QualifiedIdent has at least one part (checked: C12/nonempty)",
+	"pql.(*CompileOptions).Compile|$[]*subquery[:len($[]*subquery) - 1]":     "splitQueries returns a non-empty slice on success (its final `len(dst) == dstStart` guard appends one; checked: C12/post)",
+	"pql.(*CompileOptions).Compile|$[]*subquery[len($[]*subquery) - 1]":      "as above",
+	"pql.splitQueries|$[]*subquery[len($[]*subquery) - 1]":                   "dst is the result of the recursive splitQueries call, which appends at least one subquery (C12/post)",
+	"pql.splitQueries|$[]*subquery[$int]":                                    "guarded by leftSubquery >= dstStart >= 0, and leftSubquery = len(dst)-1 of a dst that only grew",
+	"pql.chainSubquery|$[]*subquery[len($[]*subquery) - 1]":                  "guarded by len(dst) > dstStart and dstStart = len(dst) of the caller's entry >= 0",
+	"parser.SplitStatements|$string[$int:$Token.Span.Start]":                 "start is 0 or the End of an earlier semicolon token, tok is a later token of Scan(source) (C15/provenance); token spans lie inside the source in order (C09/spans)",
+	"parser.SplitStatements|$string[$int:]":                                  "start is 0 or the End of a token of Scan(source) (C15/provenance, C09/spans)",
+	"parser.firstParse|$[]func() (T, error)[:len($[]func() (T, error)) - 1]": "variadic: every call site passes at least one production (checked: C12/variadic)",
+	"parser.firstParse|$[]func() (T, error)[len($[]func() (T, error)) - 1]":  "as above",
 }
 
 type panicClient struct {
 	BaseClient
-	p    *Program
-	pkg  *packages.Package
-	fn   string
-	seen map[string]int
-	used map[string]bool
+	p      *Program
+	pkg    *packages.Package
+	fn     string
+	seen   map[string]int
+	used   map[string]bool
+	inline map[*types.Func]bool // helpers interpreted in place (second pass: obligations decided in their callers' contexts)
+	failed map[*ast.FuncDecl]bool
 }
 
-func (c *panicClient) key(x ast.Expr) string { return c.fn + "|" + exprStr(x) }
+// Inline: in the second pass, helpers whose own obligations could not be decided are interpreted at their call sites.
+func (c *panicClient) Inline(e *Engine, call *ast.CallExpr, callee *types.Func, decl *ast.FuncDecl) bool {
+	return c.inline[callee]
+}
+
+// key identifies an index/slice expression for the reviewed table: root function and the expression with
+// names looked through, constants by value and locals by type (stable under renaming and temporaries).
+func (c *panicClient) key(e *Engine, x ast.Expr) string { return c.fn + "|" + e.NormExpr(x) }
+
+// where renders the function (and in-place call context) an obligation sits in.
+func (c *panicClient) where(e *Engine) string {
+	if k := e.FrameKey(); k != "" {
+		return c.fn + " > " + k
+	}
+	return c.fn
+}
 
 func (c *panicClient) PreCall(e *Engine, st *State, call *ast.CallExpr, _ *types.Func) *State {
 	if !IsBuiltinCall(e.Info, call, "panic") {
 		return nil
 	}
 	// reachable explicit panic: dead only if proven by a table rule elsewhere
-	key := fmt.Sprintf("%s explicit panic", c.fn)
-	dead, why := c.p.explicitPanicDead(c.pkg, e.Func, call)
+	key := fmt.Sprintf("%s explicit panic", c.where(e))
+	dead, why := c.p.explicitPanicDead(c.p.PkgOf(call.Pos()), e.CurFunc(), call)
 	e.Site("C12/panic", key, call, dead, why)
 	if !dead {
 		e.Site("C12/panic", key, call, false, "an explicit panic is reachable: "+why)
@@ -74,7 +93,7 @@ func (c *panicClient) PreAssign(e *Engine, st *State, lhs, rhs []ast.Expr, _ ast
 		if _, isMap := e.Info.TypeOf(ix.X).Underlying().(*types.Map); !isMap {
 			continue
 		}
-		key := fmt.Sprintf("%s map store %s", c.fn, exprStr(ix))
+		key := fmt.Sprintf("%s map store %s", c.where(e), exprStr(ix))
 		ok2 := e.NonNil(st, ix.X)
 		e.Site("C12/panic", key, ix, ok2, "the map is known to be allocated (make / literal) on every path")
 		if !ok2 {
@@ -98,15 +117,15 @@ func (c *panicClient) Visit(e *Engine, st *State, n ast.Node) *State {
 		if vs, ok := e.P.Parent(x).(*ast.ValueSpec); ok && len(vs.Names) == 2 {
 			return nil
 		}
-		e.Site("C12/panic", c.fn+" type assertion "+exprStr(x), x, false, "single-value type assertion panics when the dynamic type differs")
+		e.Site("C12/panic", c.where(e)+" type assertion "+exprStr(x), x, false, "single-value type assertion panics when the dynamic type differs")
 		return nil
 	case *ast.BinaryExpr:
 		if x.Op == token.QUO || x.Op == token.REM {
 			if t, ok := info.TypeOf(x).Underlying().(*types.Basic); ok && t.Info()&types.IsInteger != 0 {
 				if v, ok := constInt(info, x.Y); ok && v != 0 {
-					e.Site("C12/panic", c.fn+" division "+exprStr(x), x, true, "constant non-zero divisor")
+					e.Site("C12/panic", c.where(e)+" division "+exprStr(x), x, true, "constant non-zero divisor")
 				} else {
-					e.Site("C12/panic", c.fn+" division "+exprStr(x), x, false, "integer division by a value not known to be non-zero")
+					e.Site("C12/panic", c.where(e)+" division "+exprStr(x), x, false, "integer division by a value not known to be non-zero")
 				}
 			}
 		}
@@ -119,27 +138,35 @@ func (c *panicClient) Visit(e *Engine, st *State, n ast.Node) *State {
 		if _, isMap := t.Underlying().(*types.Map); isMap {
 			return nil
 		}
-		ok, how := c.dischargeIndex(e, st, x.X, x.Index)
+		ok, how := c.dischargeIndex(e, st, x.X, e.ResolveDeep(x.Index))
 		c.report(e, x, ok, how)
 	case *ast.SliceExpr:
-		ok, how := c.dischargeSlice(e, st, x)
+		rx := &ast.SliceExpr{X: x.X, Lbrack: x.Lbrack, Low: e.ResolveDeep(x.Low), High: e.ResolveDeep(x.High), Max: x.Max, Slice3: x.Slice3, Rbrack: x.Rbrack}
+		ok, how := c.dischargeSlice(e, st, rx)
 		c.report(e, x, ok, how)
 	}
 	return nil
 }
 
 func (c *panicClient) report(e *Engine, x ast.Expr, ok bool, how string) {
-	k := c.key(x)
+	site := c.where(e) + " " + exprStr(x)
 	if !ok {
+		k := c.key(e, x)
+		if os.Getenv("PQLCHECK_DEBUG_KEYS") != "" {
+			fmt.Fprintf(os.Stderr, "C12KEY\t%s|%s\t%s\n", c.fn, exprStr(x), k)
+		}
 		if why, rev := reviewedIndex[k]; rev {
 			c.used[k] = true
-			e.Site("C12/panic", strings.Replace(k, "|", " ", 1), x, true, "reviewed: "+why)
+			e.Site("C12/panic", site, x, true, "reviewed: "+why)
 			return
 		}
-		e.Site("C12/panic", strings.Replace(k, "|", " ", 1), x, false, "no guard idiom proves this index/slice expression in range on every path and it is not a reviewed row: "+how)
+		if c.failed != nil {
+			c.failed[e.CurFunc()] = true
+		}
+		e.Site("C12/panic", site, x, false, "no guard idiom proves this index/slice expression in range on every path and it is not a reviewed row ("+k+"): "+how)
 		return
 	}
-	e.Site("C12/panic", strings.Replace(k, "|", " ", 1), x, true, how)
+	e.Site("C12/panic", site, x, true, how)
 }
 
 // lenAtLeast: len(base) >= n known from facts (length facts, or a string known != "").
@@ -180,7 +207,7 @@ func (c *panicClient) dischargeIndex(e *Engine, st *State, base, idx ast.Expr) (
 	// e[i] inside a counted / range loop over e
 	if o := objOf(info, idx); o != nil {
 		found := false
-		e.P.ancestors(idx, e.Func, func(anc, _ ast.Node) bool {
+		e.P.ancestors(idx, e.CurFunc(), func(anc, _ ast.Node) bool {
 			switch l := anc.(type) {
 			case *ast.ForStmt:
 				if isCountedLoopOver(info, l, o, base) && !writesTo(info, l.Body, o) && !resizes(info, l.Body, base) {
@@ -376,6 +403,22 @@ func writesToExpr(info *types.Info, scope ast.Node, target ast.Expr, before toke
 
 func ruleC12Panic(p *Program, r *Run) {
 	used := map[string]bool{}
+	type unit struct {
+		pkg   *packages.Package
+		fd    *ast.FuncDecl
+		fn    string
+		sites []*SiteResult
+		errs  []string
+	}
+	var units []*unit
+	failed := map[*ast.FuncDecl]bool{}
+	run := func(u *unit, inline map[*types.Func]bool) {
+		c := &panicClient{p: p, pkg: u.pkg, fn: u.fn, used: used, inline: inline, failed: failed}
+		e := NewEngine(p, u.pkg, u.fd, c)
+		e.Run(nil)
+		u.errs = e.Errs
+		u.sites = e.Sites()
+	}
 	for _, pkg := range p.Lib() {
 		for _, fd := range AllFuncs(pkg) {
 			fn := FuncName(pkg, fd)
@@ -383,41 +426,143 @@ func ruleC12Panic(p *Program, r *Run) {
 				r.Pass("C12/panic", fn+" (generated by stringer)", p.Pos(fd.Pos()), "generated code, exempt as a unit: its table lookups are guarded by the range checks stringer emits and compile-time assertions pin the constant values")
 				continue
 			}
-			has := false
-			ast.Inspect(fd.Body, func(n ast.Node) bool {
-				switch x := n.(type) {
-				case *ast.IndexExpr, *ast.SliceExpr:
-					_ = x
-					has = true
-				case *ast.CallExpr:
-					if IsBuiltinCall(pkg.TypesInfo, x, "panic") {
-						has = true
-					}
-				case *ast.TypeAssertExpr:
-					has = true
-				}
-				return true
-			})
-			if !has {
+			r.Saw(fn)
+			u := &unit{pkg: pkg, fd: fd, fn: fn}
+			units = append(units, u)
+			run(u, nil)
+		}
+	}
+	// Second pass: an obligation that cannot be decided inside an unexported helper is decided in the context of
+	// each of its callers instead (the helper is interpreted in place there, parameters bound to the arguments).
+	inline := map[*types.Func]bool{}
+	for _, u := range units {
+		if failed[u.fd] {
+			if fn := FuncObj(u.pkg, u.fd); p.onlyCalledDirectly(fn) && smallBody(u.fd) {
+				inline[fn] = true
+			}
+		}
+	}
+	if len(inline) > 0 {
+		ctxSites := map[*ast.FuncDecl][]*SiteResult{}
+		reached := map[*ast.FuncDecl]int{}
+		for _, u := range units {
+			if inline[FuncObj(u.pkg, u.fd)] || !p.callsAny(u.fd, inline) {
 				continue
 			}
-			r.Saw(fn)
-			c := &panicClient{p: p, pkg: pkg, fn: fn, used: used}
-			e := NewEngine(p, pkg, fd, c)
+			u2 := &unit{pkg: u.pkg, fd: u.fd, fn: u.fn}
+			failed2 := map[*ast.FuncDecl]bool{}
+			c := &panicClient{p: p, pkg: u.pkg, fn: u.fn, used: used, inline: inline, failed: failed2}
+			e := NewEngine(p, u.pkg, u.fd, c)
 			e.Run(nil)
-			for _, m := range e.Errs {
-				r.Fail("C12/panic", fn+" engine", "-", m)
+			u2.sites = e.Sites()
+			for _, s := range u2.sites {
+				if h := p.FuncAt(s.Node.Pos()); h != nil && h != u.fd {
+					ctxSites[h] = append(ctxSites[h], s)
+					reached[h]++
+				}
 			}
-			e.FlushSites(r)
+			for _, m := range e.Errs {
+				r.Fail("C12/panic", u.fn+" engine (with helpers in place)", "-", m)
+			}
+		}
+		for _, u := range units {
+			if !inline[FuncObj(u.pkg, u.fd)] || reached[u.fd] == 0 {
+				continue
+			}
+			// the helper's own failing sites are replaced by their verdicts in every calling context
+			var kept []*SiteResult
+			for _, s := range u.sites {
+				if len(s.Fails) == 0 {
+					kept = append(kept, s)
+				}
+			}
+			u.sites = append(kept, ctxSites[u.fd]...)
+			r.Note("C12/panic: obligations of helper %s are decided in the contexts of its %d call paths (helper interpreted in place)", u.fn, reached[u.fd])
 		}
 	}
+	for _, u := range units {
+		for _, m := range u.errs {
+			r.Fail("C12/panic", u.fn+" engine", "-", m)
+		}
+		for _, s := range u.sites {
+			pos := p.Pos(s.Node.Pos())
+			if len(s.Fails) == 0 {
+				r.PassNT(s.Rule, s.Key, pos, fmt.Sprintf("%s (all %d abstract path states)", s.How, s.Visits))
+			} else {
+				r.Fail(s.Rule, s.Key, pos, strings.Join(s.Fails, "; "))
+			}
+		}
+	}
+	var unused []string
 	for k := range reviewedIndex {
 		if !used[k] {
-			r.Note("reviewed row not used on this tree (construct gone or now discharged by an idiom): %s", k)
+			unused = append(unused, k)
 		}
 	}
-	r.Floor("C12/panic", 55)
+	sort.Strings(unused)
+	for _, k := range unused {
+		r.Note("reviewed row not used on this tree (construct gone or now discharged by an idiom): %s", k)
+	}
+	r.Floor("C12/panic", 40)
 	ruleC12Support(p, r)
+}
+
+// onlyCalledDirectly: an unexported function all of whose uses are direct calls outside function literals.
+func (p *Program) onlyCalledDirectly(fn *types.Func) bool {
+	if fn == nil || fn.Exported() {
+		return false
+	}
+	info := p.Info
+	calls, other := 0, 0
+	for _, pkg := range p.All {
+		for _, f := range pkg.Syntax {
+			lit := 0
+			var visit func(n ast.Node) bool
+			visit = func(n ast.Node) bool {
+				switch x := n.(type) {
+				case *ast.FuncLit:
+					lit++
+					ast.Inspect(x.Body, visit)
+					lit--
+					return false
+				case *ast.CallExpr:
+					if Callee(info, x) == fn {
+						if lit == 0 {
+							calls++
+						} else {
+							other++
+						}
+						for _, a := range x.Args {
+							ast.Inspect(a, visit)
+						}
+						if sel, ok := ast.Unparen(x.Fun).(*ast.SelectorExpr); ok {
+							ast.Inspect(sel.X, visit)
+						}
+						return false
+					}
+				case *ast.Ident:
+					if info.Uses[x] == types.Object(fn) {
+						other++
+					}
+				}
+				return true
+			}
+			ast.Inspect(f, visit)
+		}
+	}
+	return calls > 0 && other == 0
+}
+
+// callsAny: the body of fd (transitively through the given helpers) calls one of them.
+func (p *Program) callsAny(fd *ast.FuncDecl, set map[*types.Func]bool) bool {
+	found := false
+	ast.Inspect(fd.Body, func(n ast.Node) bool {
+		if call, ok := n.(*ast.CallExpr); ok && set[Callee(p.Info, call)] {
+			found = true
+		}
+		return !found
+	})
+	return found
 }
 
 // ruleC12Support checks the three invariants the reviewed rows lean on.
